@@ -50,17 +50,17 @@ pub fn plan(prop: &str, tier: &str, ctx: &Ctx) -> (u64, u64, String) {
             (
                 ex + if thorough { 30_000_000 } else { 1_000_000 },
                 ex,
-                format!("every one of the {} regular input families at 700 kB and 8 documents with one kind of thing (anchors, aliases, documents, keys, tags, entries) counted to 66 000; every (context, follower, suffix) triple: {} scanner contexts x 93 follower characters (34 ASCII classes, one representative per UTF-8 lead byte C2..F4, NEL, NBSP, LS, BOM) x 5 suffixes; every sequence of 1..{tl} tokens over the 36-token YAML alphabet {:?} and every string of length <= {l} over the 16-symbol alphabet {:?}, each x 16 environments", crate::scale::FAMILIES.len(), crate::gen::CONTEXTS.len(), crate::gen::TOKENS, crate::gen::C10_ALPHABET),
+                format!("every one of the {} regular input families at 700 kB and 8 documents with one kind of thing (anchors, aliases, documents, keys, tags, entries) counted to 66 000; every (context, follower, suffix) triple: {} scanner contexts x 261 follower characters (38 ASCII classes, one representative per UTF-8 lead byte C2..F4, NEL, NBSP, LS, BOM, and the characters that a truncating cast turns into ASCII: U+0100+b for every ASCII b, U+10000+b for the significant ones) x 5 suffixes; every sequence of 1..{tl} tokens over the 36-token YAML alphabet {:?} and every string of length <= {l} over the 16-symbol alphabet {:?}, each x 16 environments", crate::scale::FAMILIES.len(), crate::gen::CONTEXTS.len(), crate::gen::TOKENS, crate::gen::C10_ALPHABET),
             )
         }
         "C01" => {
             let l = if thorough { 5 } else { 4 };
             let tl = if thorough { 4 } else { 3 };
-            let ex = (crate::gen::w5_count(l) + crate::gen::count_token_strings(tl)) * c01::W5_ENVS.len() as u64 + crate::gen::slide_count() * 5 + crate::gen::repeat_count() * 2 + crate::gen::escape_pair_count() * 3 + c01::mega_count();
+            let ex = (crate::gen::w5_count(l) + crate::gen::count_token_strings(tl)) * c01::W5_ENVS.len() as u64 + crate::gen::slide_count() * 5 + crate::gen::repeat_count() * 2 + crate::gen::escape_pair_count() * 3 + c01::mega_count() + crate::gen::count_context_cases() * 2;
             (
                 ex + if thorough { 150_000_000 } else { 4_000_000 },
                 ex,
-                format!("every string of length <= {l} over the 14-symbol alphabet {:?} and every sequence of 1..{tl} tokens over the 36-token YAML alphabet {:?}, each x {} environments; plus {} sliding cases (a 2/3/4-byte character, literal or %-escaped, behind 0..40 ASCII characters in 14 constructs) x iterate and the four loaders; plus every ordered token pair repeated 255/256/257/1000 times x 2 clients; plus every ordered pair of 26 edge-value escapes in a double-quoted scalar x 3 clients; plus every regular input family at 700 kB and 8 count documents (66 000 anchors / aliases / documents / keys / tags / entries) x iterate and one loader", crate::gen::W5_ALPHABET, crate::gen::TOKENS, c01::W5_ENVS.len(), crate::gen::slide_count()),
+                format!("every string of length <= {l} over the 14-symbol alphabet {:?} and every sequence of 1..{tl} tokens over the 36-token YAML alphabet {:?}, each x {} environments; plus {} sliding cases (a 2/3/4-byte character, literal or %-escaped, behind 0..40 ASCII characters in 14 constructs) x iterate and the four loaders; plus every ordered token pair repeated 255/256/257/1000 times x 2 clients; plus every ordered pair of 26 edge-value escapes in a double-quoted scalar x 3 clients; plus every regular input family at 700 kB and 8 count documents (66 000 anchors / aliases / documents / keys / tags / entries) x iterate and one loader; plus every (context, follower, suffix) triple of the C10 enumeration x 2 clients", crate::gen::W5_ALPHABET, crate::gen::TOKENS, c01::W5_ENVS.len(), crate::gen::slide_count()),
             )
         }
         "C17" => {
@@ -599,7 +599,7 @@ fn relevant_probes(prop: &str) -> Vec<usize> {
             P::ReadShort, P::ReadEintr, P::ReadHardError, P::ReadEarlyEof, P::ByteTruncate, P::ByteFlip, P::ByteOverwrite,
             P::ByteInsert, P::ByteDelete, P::BomDrop, P::BomDup, P::EncSplice, P::TrapCalled, P::TrapContinueNothing,
             P::TrapContinueFffd, P::TrapContinueBig, P::TrapBreakEmpty, P::TrapBreakMsg, P::DecodeMultiIter,
-            P::DecodeErrDecode, P::DecodeErrScan, P::DecodeErrIo, P::DecodeOk, P::NestedDecodeInRead, P::NestedDecodeInTrap,
+            P::DecodeErrDecode, P::DecodeErrScan, P::DecodeErrIo, P::DecodeOk, P::NestedDecodeInRead, P::NestedDecodeInTrap, P::TrapShrinksOutput,
         ],
         _ => vec![],
     };
